@@ -196,6 +196,9 @@ package stake
 //@   assert@call(DelStake,0): content(ctx.Tx.From) == content(s0.From)                                        [C12]
 //@   assert@store(Stake.RefundHeight,0): $target == s0 && $value == ctx.Height + govLazyReward[ctx.GovHandler]   [C12]
 //@   assert@store(Stake.RefundHeight,1): $target == _s0 && $value == ctx.Height + govLazyReward[ctx.GovHandler]  [C12,C14]
+//@   assert@call(setUpdateFrozen,0): $arg0 == s0                                                              [C11,C12]
+//@   assert@call(setUpdateFrozen,1): $arg0 == _s0                                                             [C11,C12]
+//@   assert@call(setUpdateDelegatee,0): $arg0 == delegatee                                                    [C11]
 //@   loop 0: invariant ctx.Height >= 0 && ctx.Height < 2^62 && ctx.GovHandler == old(ctx.GovHandler) && ctx.Height == old(ctx.Height) && ctx.Exec == old(ctx.Exec) && cons_ok == ctx.Exec && ctrler.frozenLedger != nil && ctx.GovHandler != nil
 
 // the callback of unfreezingStakes: refund exactly matured stakes, in full, to their owner, on the
@@ -229,6 +232,13 @@ package stake
 // object untouched and is taken off the list; nothing but the powers of this delegatee's stakes, its stake
 // list and its two totals changes. (Which elements the removal loop takes off the list, and the sums computed
 // by sumPowerOf, are outside this contract: see DESIGN.md, residue of C14.)
+// sumPowerOf is the definition of "the sum of the bonded powers (of one owner)": stakesum names its result
+//@ func (delegatee *Delegatee) sumPowerOf(addr)
+//@   trusted
+//@   pure
+//@   requires delegatee != nil
+//@   ensures result == stakesum(delegatee, addrsel(addr))                                                     [C11]
+
 //@ func (delegatee *Delegatee) doSlashAll(ratio)
 //@   nopanic
 //@   requires wf_delg(delegatee) && 0 <= ratio && ratio <= 100
@@ -237,6 +247,7 @@ package stake
 //@   modifies delegatee.Stakes, elems(delegatee.Stakes), delegatee.SelfPower, delegatee.TotalPower, Stake.Power
 //@   allocates []*Stake
 //@   ensures wf_delg(delegatee)
+//@   ensures delegatee.SelfPower == stakesum(delegatee, addrsel(delegatee.Addr)) && delegatee.TotalPower == stakesum(delegatee, -1)   [C11,C14]
 //@   ensures forall i :: 0 <= i && i < old(len(delegatee.Stakes)) && old(delegatee.Stakes[i].Power) * ratio / 100 >= 1 ==> old(delegatee.Stakes[i]).Power == old(delegatee.Stakes[i].Power) - old(delegatee.Stakes[i].Power) * ratio / 100   [C14]
 //@   ensures forall i :: 0 <= i && i < old(len(delegatee.Stakes)) && old(delegatee.Stakes[i].Power) * ratio / 100 < 1 ==> old(delegatee.Stakes[i]).Power == old(delegatee.Stakes[i].Power)   [C14]
 //@   ensures forall r :: !(0 <= stakeidx(r) && stakeidx(r) < old(len(delegatee.Stakes)) && old(delegatee.Stakes[stakeidx(r)]) == r) ==> as(r, ptr(Stake)).Power == old(as(r, ptr(Stake)).Power)   [C14]
